@@ -28,6 +28,8 @@ from coba.experiments import Experiment                              # noqa: E40
 from coba.results import Result                                      # noqa: E402
 
 from vf.lib import c02_parts as parts                                # noqa: E402
+from vf.lib import cobaenv                                           # noqa: E402
+cobaenv.register()          # per-pid coba globals for the multi-process resume configurations (SCHED engine, default schedule)
 
 import coba.evaluators.sequential as _seq                            # noqa: E402
 
@@ -269,7 +271,7 @@ class C02(Check):
             'first/last 3 bytes) plus e-1,e,e+1 for every record boundary e (plain and gz; thorough: 3 triple orders x 3 record orders)')
     ASSUMPTIONS = [
         'crash model: a killed run leaves a byte-prefix of the append-only log (process kill; no page-cache reordering, no power loss)',
-        'resumed runs are in-process (processes=1, maxchunksperchild=0, maxtasksperchunk=0); resuming with multi-process configurations is not explored here',
+        'resumed runs are in-process, plus - for the first order of the 2x2 / 4-triple shapes - on worker processes (2,0,0) [thorough also (1,1,1),(2,1,0)] run on the simulated spawn context under the default schedule only (schedules of the resumed run are C01\'s subject)',
         'the resumed experiment is a fresh, identical experiment: same triple list in the same order (ids are assigned by first appearance), same seed',
         'what counts as recorded does not depend on how the writer framed the file: content = the longest decodable text of the prefix (plain: its bytes; '
         '.gz: its complete gzip members plus whatever still decompresses out of the torn rest); a triple is recorded iff its whole "I" line including the '
@@ -323,7 +325,14 @@ class C02(Check):
 
     def cases(self, tier):
         for h in self.histories(tier):
-            for cfg in self.RESUME_CONFIGS:
+            cfgs = list(self.RESUME_CONFIGS)
+            # re-runs "using any execution configuration": worker processes on the simulated spawn context (default schedule)
+            if h['shape'] in ('S2', 'S4') and h['lines'] == 'asis' and h['order'] == [0, 1, 2, 3] and not h.get('level2'):
+                if tier == 'quick':
+                    if h['kind'] == 'plain' and h['shape'] == 'S2': cfgs += [[2, 0, 0]]
+                else:
+                    cfgs += [[2, 0, 0], [1, 1, 1], [2, 1, 0]]
+            for cfg in cfgs:
                 n = {'S1': 6, 'S2': 16, 'S4': 24, 'S5': 16}[h['shape']] * (3 if h['kind'] == 'gz' and h['shape'] != 'S5' else 2) // 2
                 for i in range(n):
                     yield {**h, 'config': cfg, 'chunk': [i, n]}
@@ -343,15 +352,27 @@ class C02(Check):
         return os.path.join(d, 'r.log.gz' if gz else 'r.log')      # same basename everywhere: it goes into the gzip member headers
 
     def _run(self, h, path, log, config=(1, 0, 0)):
-        """One real Experiment.run on fresh components: ('ok', snapshot, calls) | ('exc', exception, calls)."""
-        CobaContext.logger = NullLogger(ListSink(log))
-        CobaContext.cacher = MemoryCacher()
+        """One real Experiment.run on fresh components: ('ok', snapshot, calls) | ('exc', exception, calls).
+        A multi-process configuration runs on the simulated spawn context under the scheduler's default schedule."""
         del parts.CALLS[:]
         _CLOCK.t = 0.0
-        try:
+        def body():
+            CobaContext.logger = NullLogger(ListSink(log))
+            CobaContext.cacher = MemoryCacher()
             exp = Experiment(parts.triples(h['shape'], h['order']))
             res = exp.run(path, quiet=True, processes=config[0], maxchunksperchild=config[1], maxtasksperchunk=config[2])
-            return 'ok', snapshot(res), list(parts.CALLS)
+            return snapshot(res)
+        try:
+            if tuple(config) == (1, 0, 0):
+                return 'ok', body(), list(parts.CALLS)
+            ex = sched.execute(body, (), 'low')
+            if ex.deadlock or ex.livelock:
+                return 'exc', RuntimeError('the resumed multi-process run hangs'), list(parts.CALLS)
+            kind, val = ex.result
+            if kind == 'exc':
+                if not isinstance(val, Exception): raise val
+                return 'exc', val, list(parts.CALLS)
+            return 'ok', val, list(parts.CALLS)
         except Exception as e:      # noqa - classified by the caller
             return 'exc', e, list(parts.CALLS)
         finally:
